@@ -111,6 +111,13 @@ def parseDump (line : String) : Option (Prog Float × Nat) :=
     | _ => none
   | _ => none
 
+/-- the program as it has to be presented to `compileInto` for an object that holds `J0` jump entries: the top-level
+body is named `J0`; the ids of the nested bodies are moved out of the way (the output does not depend on them) -/
+def placeAt (J0 : Nat) (p : Program Float) : Program Float :=
+  let m : Nat → Nat := fun id => id + 1000000
+  { main := relabelE m p.main,
+    bodies := (J0, relabelE m p.main) :: (p.bodies.filter (fun ib => ib.1 != 0)).map (fun ib => (m ib.1, relabelE m ib.2)) }
+
 end CompileAux
 open CompileAux
 
@@ -188,6 +195,26 @@ def depthChkCase (f : List String) : String :=
               s!"mismatch pc={pc} static={st} observed={rel}"
       | none => "BAD-CASE dump"
     | _ => "BAD-CASE fields"
+  | _ => "BAD-CASE fields"
+
+/-- COMPILE2 \t id \t <ast term 1> \t <ast term 2> …: the programs compiled one after the other into one object
+(`compileInto`), printed like the harness's DUMP2 -/
+def compile2Case (f : List String) : String :=
+  match f with
+  | _ :: _ :: asts =>
+    let step (acc : Option (Prog Float × List Nat)) (ast : String) : Option (Prog Float × List Nat) :=
+      match acc, (Term.parse ast).bind programOfTerm with
+      | some (P, es), some p =>
+        let st := compileState P (placeAt P.jumps.size p)
+        if st.pending.isEmpty then some (st.toProg, es ++ [P.jumps.size]) else none
+      | _, _ => none
+    match asts.foldl step (some (Prog.empty, [])) with
+    | some (P, es) =>
+      let is := String.join (P.instrs.toList.map (fun i => showInstr P i ++ ","))
+      let js := String.join (P.jumps.toList.map (fun j => toString j ++ ","))
+      let en := String.join (es.map (fun e => toString e ++ ","))
+      s!"ok entries={en} meta={P.instrs.size} {is} J={js}"
+    | none => "BAD-CASE ast or INCOMPLETE"
   | _ => "BAD-CASE fields"
 
 end Garnish.Driver
